@@ -93,6 +93,7 @@ type Runner struct {
 	Commits    []CommitRec
 	CreatedIdx int // log position after file creation
 	InitTxID   uint64
+	InitState  *MState // committed state the history starts from (nil: empty file)
 
 	stalled   bool
 	everFreed map[txfile.PageID]bool
